@@ -63,6 +63,10 @@ def gen_doc(rng):
     for p in range(nh):
         header += rng.sample(HEAD_SENT, rng.randint(1, 3))
         header.append("")
+    if rng.random() < 0.15:
+        # an underlined sub-heading / a horizontal rule inside the header prose
+        header += rng.choice([["Background", "----------", "Some background text"], ["Overview text before a rule", "-------", "and after the rule"]])
+        header.append("")
     params = rng.sample(PARAMS, rng.randint(0, 3))
     with_return = rng.random() < 0.6 or not params
     sec = section(style, params, with_return)
